@@ -300,3 +300,242 @@ def snapshot(tensors) -> list:
             )
         )
     return res
+
+
+# ----------------------------------------------------------------------------- general DAGs (C12)
+# Self-contained builder (does not share the random stream of ``build``): diamonds, deep chains, detached
+# sub-graphs, leaves not requiring grad, multi-output ops (unbind / split / chunk) whose sibling outputs stay usable.
+
+DAG_SHAPES = [(), (2,), (3,), (2, 2), (2, 3), (4,), (3, 1)]
+DAG_OPS = ["sin", "tanh", "scale", "square", "addsame", "mulsame", "sum", "sumdim", "mulscalar", "flat", "stack",
+           "unbind", "split", "chunk", "index", "detach_mix", "detach_branch", "chain", "outer", "dot", "addsum"]
+
+
+class _Dag:
+    def __init__(self, rng: random.Random, dtype):
+        self.rng, self.dtype = rng, dtype
+        self.pool, self.nodes, self.leaves, self.desc = [], [], [], []
+        self.multi = []  # groups (lists) of sibling outputs of one multi-output node
+
+    def leaf(self, requires_grad: bool, tag: str, shape=None):
+        shape = self.rng.choice(DAG_SHAPES) if shape is None else shape
+        t = _rand_tensor(self.rng, shape, self.dtype).requires_grad_(requires_grad)
+        self.leaves.append(t)
+        self.pool.append(t)
+        self.desc.append(f"{tag}{len(self.leaves) - 1}{tuple(shape)}{'g' if requires_grad else 'n'}")
+        return t
+
+    def name(self, t):
+        return id_of(self.pool, t)
+
+    def add(self, t, d):
+        self.pool.append(t)
+        if t.requires_grad and t.grad_fn is not None:
+            self.nodes.append(t)
+        self.desc.append(d)
+        return t
+
+    def step(self, pick):
+        """Apply one random op; ``pick()`` chooses an operand.  Returns the list of tensors added."""
+        rng = self.rng
+        op = rng.choice(DAG_OPS)
+        a = pick()
+        n0 = len(self.pool)
+        nm = self.name
+        try:
+            if op == "sin":
+                self.add(torch.sin(a), f"sin({nm(a)})")
+            elif op == "tanh":
+                self.add(torch.tanh(a), f"tanh({nm(a)})")
+            elif op == "scale":
+                c = rng.choice([-2.0, 0.5, 3.0])
+                self.add(a * c, f"{c}*({nm(a)})")
+            elif op == "square":
+                self.add(a * a, f"sq({nm(a)})")
+            elif op in ("addsame", "mulsame"):
+                b = rng.choice([t for t in self.pool if t.shape == a.shape])
+                self.add(a + b if op == "addsame" else a * b, f"{op}({nm(a)},{nm(b)})")
+            elif op == "sum":
+                self.add(a.sum(), f"sum({nm(a)})")
+            elif op == "sumdim":
+                if a.dim() >= 1:
+                    d = rng.randrange(a.dim())
+                    self.add(a.sum(dim=d), f"sum{d}({nm(a)})")
+            elif op == "mulscalar":
+                sc = [t for t in self.pool if t.dim() == 0]
+                if sc:
+                    b = rng.choice(sc)
+                    self.add(a * b, f"mulsc({nm(a)},{nm(b)})")
+            elif op == "flat":
+                self.add(a.reshape(-1), f"flat({nm(a)})")
+            elif op == "stack":
+                b = rng.choice([t for t in self.pool if t.shape == a.shape])
+                self.add(torch.stack([a, b]), f"stack({nm(a)},{nm(b)})")
+            elif op in ("unbind", "split", "chunk"):
+                if a.dim() >= 1 and a.shape[0] >= 2:
+                    parts = a.unbind(0) if op == "unbind" else (a.split(1, 0) if op == "split" else a.chunk(2, 0))
+                    group = [self.add(p, f"{op}{j}({nm(a)})") for j, p in enumerate(parts)]
+                    self.multi.append(group)
+            elif op == "index":
+                if a.dim() >= 1 and a.shape[0] >= 1:
+                    j = rng.randrange(a.shape[0])
+                    self.add(a[j], f"idx{j}({nm(a)})")
+            elif op == "detach_mix":
+                self.add(a * a.detach(), f"dmix({nm(a)})")
+            elif op == "detach_branch":  # a detached sub-graph feeding back into the graph
+                b = rng.choice([t for t in self.pool if t.shape == a.shape])
+                self.add(torch.sin(a.detach() * 2.0) * b, f"dbranch({nm(a)},{nm(b)})")
+            elif op == "chain":
+                t = a
+                for q in range(rng.randint(3, 6)):
+                    t = torch.tanh(t) if q % 2 else t * 1.5 + 0.1
+                self.add(t, f"chain({nm(a)})")
+            elif op == "outer":
+                if a.dim() == 1:
+                    b = rng.choice([t for t in self.pool if t.dim() == 1])
+                    self.add(torch.outer(a, b), f"outer({nm(a)},{nm(b)})")
+            elif op == "dot":
+                c = [t for t in self.pool if t.dim() == 1 and a.dim() == 1 and t.shape == a.shape]
+                if c:
+                    b = rng.choice(c)
+                    self.add(a @ b, f"dot({nm(a)},{nm(b)})")
+            elif op == "addsum":  # mixes tensors of any shapes: a + sum(b)
+                b = rng.choice(self.pool)
+                self.add(a + b.sum(), f"addsum({nm(a)},{nm(b)})")
+        except RuntimeError:
+            pass
+        return self.pool[n0:]
+
+
+def build_dag(spec: dict) -> Program:
+    """spec: {seed, n_leaves, n_ops, n_outputs, dtype}.  Like ``build`` with more graph shapes (see above)."""
+    rng = random.Random(spec["seed"])
+    dtype = torch.float64 if spec.get("dtype", "float64") == "float64" else torch.float32
+    g = _Dag(rng, dtype)
+    for i in range(spec.get("n_leaves", 3)):
+        g.leaf(True if i == 0 else rng.random() > 0.25, "L")
+
+    def pick():
+        if rng.random() < 0.55 and g.nodes:
+            return rng.choice(g.nodes[-4:])
+        return rng.choice(g.pool)
+
+    for _ in range(spec.get("n_ops", 6)):
+        g.step(pick)
+    n_out = spec.get("n_outputs", 2)
+    grad_leaves = [t for t in g.leaves if t.requires_grad]
+    while len(g.nodes) < n_out:
+        a = rng.choice(g.nodes + grad_leaves)
+        g.add(torch.tanh(a) + 0.5, f"tanhp({g.name(a)})")
+    idx = rng.sample(range(len(g.nodes)), n_out)
+    g.desc.append("OUT:" + ",".join(map(str, idx)))
+    return Program(g.leaves, grad_leaves, g.nodes, [g.nodes[i] for i in idx], g.desc)
+
+
+@dataclass
+class MTLDag:
+    leaves: list  # every leaf tensor (some do not require grad)
+    features: list  # non-leaf tensors with a grad_fn
+    losses: list  # scalar tensors with a grad_fn
+    desc: list = field(default_factory=list)
+
+
+def build_mtl_dag(spec: dict) -> MTLDag:
+    """spec: {seed, dtype, n_trunk_leaves, n_trunk_ops, n_features, n_head_leaves, n_head_ops, n_losses,
+    p_around (probability that a head operand is taken from the trunk, i.e. reaches the shared leaves AROUND the
+    features), multi (prefer outputs of multi-output ops as features)}."""
+    rng = random.Random(spec["seed"])
+    dtype = torch.float64 if spec.get("dtype", "float64") == "float64" else torch.float32
+    g = _Dag(rng, dtype)
+    for i in range(spec.get("n_trunk_leaves", 2)):
+        g.leaf(True if i == 0 else rng.random() > 0.2, "S")
+
+    def pick_trunk():
+        if rng.random() < 0.5 and g.nodes:
+            return rng.choice(g.nodes[-4:])
+        return rng.choice(g.pool)
+
+    for _ in range(spec.get("n_trunk_ops", 4)):
+        g.step(pick_trunk)
+    if spec.get("multi", False):  # make sure a multi-output op with a differentiable input exists
+        cands = [t for t in g.pool if t.requires_grad and t.dim() >= 1 and t.shape[0] >= 2]
+        if not cands:
+            base = [t for t in g.leaves if t.requires_grad][0]
+            cands = [g.add(torch.stack([base.sum(), (base * base).sum(), base.sum() * 0.5]), "stack3(S0)")]
+        a = rng.choice(cands)
+        kind = rng.choice(["unbind", "split", "chunk"])
+        parts = a.unbind(0) if kind == "unbind" else (a.split(1, 0) if kind == "split" else a.chunk(2, 0))
+        g.multi.append([g.add(p, f"{kind}{j}({g.name(a)})") for j, p in enumerate(parts)])
+    if not g.nodes:
+        base = [t for t in g.leaves if t.requires_grad][0]
+        g.add(torch.sin(base) * 2.0, "sin2(S0)")
+    n_feat = min(spec.get("n_features", 1), len(g.nodes))
+    feats = []
+    groups = [[t for t in grp if t.requires_grad and t.grad_fn is not None] for grp in g.multi]
+    groups = [grp for grp in groups if len(grp) >= 2]
+    if spec.get("multi", False) and groups:
+        grp = rng.choice(groups)
+        feats.append(grp[rng.randrange(len(grp) - 1)] if rng.random() < 0.7 else grp[-1])
+    while len(feats) < n_feat:
+        c = rng.choice(g.nodes)
+        if not any(c is f for f in feats):
+            feats.append(c)
+    g.desc.append("FEAT:" + ",".join(g.name(f) for f in feats))
+    trunk_pool = list(g.pool)
+    siblings = [t for grp in groups for t in grp if not any(t is f for f in feats)]
+    head_pool = list(feats)
+    for i in range(spec.get("n_head_leaves", 2)):
+        head_pool.append(g.leaf(rng.random() > 0.15, "T"))
+    p_around = spec.get("p_around", 0.0)
+    p_sib = spec.get("p_sibling", 0.0)
+
+    def pick_head():
+        r = rng.random()
+        if r < p_sib and siblings:
+            return rng.choice(siblings)
+        if r < p_sib + p_around:
+            return rng.choice(trunk_pool)
+        return rng.choice(head_pool)
+
+    head_nodes = []
+    for _ in range(spec.get("n_head_ops", 4)):
+        new = g.step(pick_head)
+        for t in new:
+            head_pool.append(t)
+            if t.requires_grad and t.grad_fn is not None:
+                head_nodes.append(t)
+    losses = []
+    for i in range(spec.get("n_losses", 2)):
+        terms = rng.sample(head_nodes, min(len(head_nodes), rng.randint(1, 2))) if head_nodes else []
+        if rng.random() < 0.5 or not terms:
+            terms.append(rng.choice(feats))
+        if p_sib > 0 and siblings and rng.random() < p_sib:
+            terms.append(rng.choice(siblings))
+        loss = sum((t * (1.0 + 0.5 * i + 0.25 * j)).sin().sum() for j, t in enumerate(terms))
+        losses.append(loss)
+        g.desc.append(f"LOSS{i}:" + ",".join(g.name(t) for t in terms))
+    return MTLDag(g.leaves, feats, losses, g.desc)
+
+
+def reachable_leaves(roots, excluded=()):
+    """Independent oracle for default parameter discovery: depth-first walk over ``grad_fn.next_functions`` along
+    (node, output_nr) EDGES; an edge equal to that of an excluded tensor is not crossed.  Returns the list of leaf
+    tensors (variables of the AccumulateGrad nodes reached), without duplicates."""
+    cut = {(t.grad_fn, t.output_nr) for t in excluded}
+    seen_edges, found, order = set(), set(), []
+
+    def walk(node, nr):
+        if node is None or (node, nr) in cut or (node, nr) in seen_edges:
+            return
+        seen_edges.add((node, nr))
+        if type(node).__name__ == "AccumulateGrad":
+            if id(node.variable) not in found:
+                found.add(id(node.variable))
+                order.append(node.variable)
+            return
+        for child, child_nr in node.next_functions:
+            walk(child, child_nr)
+
+    for t in roots:
+        walk(t.grad_fn, t.output_nr)
+    return order
